@@ -14,14 +14,11 @@ pub fn band(ctx: &Ctx, v: usize) -> Option<(U, U, U)> {
     let vo = &ctx.pre.vamms[v];
     let d = vo.decimals.max(1);
     let l = vo.fluct;
-    let upper = mul_div(r.price, d + l, d)?;
     // prices as the vAMM reports them (whole price units): spot >= P_ref x (1 - l) means spot >= the product rounded
     // UP, spot <= P_ref x (1 + l) means spot <= the product rounded down. (Until an independent audit pointed at
     // low-priced markets, where one price unit is a sizeable fraction of the price, the lower edge was rounded down
     // like the vAMM's own - a band up to one unit wider than the statement's.)
-    let lower_floor = mul_div(r.price, d.checked_sub(l)?, d)?;
-    let exact = u256(lower_floor) * u256(d) == u256(r.price) * u256(d.checked_sub(l)?);
-    let lower = if exact { lower_floor } else { lower_floor + 1 };
+    let (lower, upper) = band_bounds(r.price, l, d)?;
     Some((lower, upper, r.price))
 }
 
